@@ -193,3 +193,26 @@ def frame(vc):
         'cassandra/cluster.py::Cluster.__init__', 'cassandra/cluster.py::Cluster.protocol_downgrade'},
         files=['cassandra/cluster.py'])
     vc.check('frame/protocol_version', ok, note=str(bad))
+
+
+@harness('C41', 'explicit-version-recorded', functions=['cassandra.cluster.Cluster.__init__'], native='contracts.native.c41:replay')
+def explicit_recorded(vc):
+    """"never stepping down from a version the user fixed" needs the constructor to remember THAT the user fixed one.  The statements of
+    Cluster.__init__ that mention protocol_version / _protocol_version_explicit, executed for every int the caller may pass and for the argument left
+    out: ensures an argument that was given is the cluster's version and marks it explicit - also when it equals the class default - and an argument
+    left out leaves the default version, not explicit"""
+    from cassandra.cluster import Cluster, _NOT_SET
+    given = vc.choice('protocol_version_argument', ['given', 'left-out'])
+    v = vc.int('protocol_version')
+    self = vc.obj(Cluster)
+    vc.exec_slices('cassandra.cluster.Cluster.__init__', r'_protocol_version_explicit|self\.protocol_version\b',
+                   dict(self=self, protocol_version=(v if given == 'given' else _NOT_SET)))
+    explicit = self.attrs.get('_protocol_version_explicit', Cluster._protocol_version_explicit)
+    now = self.attrs.get('protocol_version', Cluster.protocol_version)
+    if given == 'given':
+        vc.check('given/marked-explicit-whatever-the-number', explicit if sym.is_sym(explicit) else explicit is True,
+                 note='also for the class default %r' % (Cluster.protocol_version,))
+        vc.check('given/is-the-cluster-version', now == v)
+    else:
+        vc.check('left-out/not-explicit', explicit is False)
+        vc.check('left-out/class-default-version', now == Cluster.protocol_version)
